@@ -164,7 +164,7 @@ func (k checker) runFamilies() {
 				c.HarnessError("transform %s is not exact on parabola(%d)", tr.Name, n)
 				continue
 			}
-			for layout := 0; layout < 3; layout++ {
+			for layout := 0; layout < 4; layout++ {
 				for _, order := range [][]P{pts, rev, evenOdd} {
 					k.checkAs(with(order, n), tr, "", layout, fam)   // q last: one insertion invalidates `cavity` triangles
 					k.checkAs(with(order, 0), tr, "", layout, fam)   // q first
@@ -175,4 +175,56 @@ func (k checker) runFamilies() {
 		}
 	}
 	c.Bound("families.parabola", fmt.Sprintf("P_i=(i,i^2), i=1..n for n in %v, plus the interior integer point lying strictly inside the most circumcircles (cavity sizes reached in this shard: %v); orders: ascending, descending, even-then-odd, the interior point last / first / in the middle; %d transforms x 3 slice layouts", sizes, cav, len(trs)))
+}
+
+
+// scattered: a fixed sequence of pairwise distinct pseudo-random integer points in [0, 8192)^2 (a
+// 64-bit LCG; coordinates small enough for the exact in-circle determinant). The first n of them
+// are "the point set of size n".
+func scattered(n int) []P {
+	seen := map[P]bool{}
+	var out []P
+	s := uint64(0x9E3779B97F4A7C15)
+	for len(out) < n {
+		s = s*6364136223846793005 + 1442695040888963407
+		x := int64((s >> 33) % 8192)
+		s = s*6364136223846793005 + 1442695040888963407
+		y := int64((s >> 33) % 8192)
+		p := P{x, y}
+		if !seen[p] {
+			seen[p] = true
+			out = append(out, p)
+		}
+	}
+	return out
+}
+
+// runCounts: every point count from 3 up to a bound (a threshold, stride or block size inside the
+// triangulator shows only at counts related to it), on the first n points of one scattered sequence.
+// Point sets this large are not screened for collinear triples / cocircular quadruples: the oracle's
+// circumcircle and area tests are strict, so such a coincidence cannot raise an alarm by itself.
+func (k checker) runCounts() {
+	c := k.c
+	nmax := 2100
+	if c.Thorough() {
+		nmax = 4200
+	}
+	all := scattered(nmax)
+	id := transforms[0]
+	done := 0
+	for n := 3; n <= nmax; n++ {
+		if !c.Next() {
+			continue
+		}
+		if c.Expired() {
+			break
+		}
+		layout := 0
+		if n%64 == 0 {
+			layout = 3
+		}
+		k.checkAs(all[:n], id, "", layout, "scattered(every point count)")
+		done++
+	}
+	c.Bound("families.every_point_count", fmt.Sprintf("the first n points of one scattered integer sequence for every n = 3..%d (every 64th in a re-used buffer); above %d triangles the pairwise interior test is replaced by: no directed edge used twice", nmax, pairwiseLimit))
 }
